@@ -261,10 +261,15 @@ func suiteC05Inline(env *Env, res *Result) {
 			dir = "exclude"
 			kind += "+excludedir"
 		}
-		tree := Tree{"regex-assembly/include/": "", "regex-assembly/exclude/": "", "regex-assembly/" + dir + "/lib.ra": ftext}
-		ref := "lib"
+		base := "lib"
+		if r.Chance(1, 4) {
+			base = "lib-8.x" // a dot in the name that is not the .ra extension
+			kind += "+dotted-name"
+		}
+		tree := Tree{"regex-assembly/include/": "", "regex-assembly/exclude/": "", "regex-assembly/" + dir + "/" + base + ".ra": ftext}
+		ref := base
 		if r.Chance(1, 3) {
-			ref = "lib.ra"
+			ref = base + ".ra"
 		}
 		entries, pf, sf, _ := ownBuffer(ftext)
 		// by hand
@@ -342,6 +347,20 @@ func suiteC05Inline(env *Env, res *Result) {
 		}
 		a := build([]string{"##!> include " + ref})
 		b := build(inl)
+		if wl && kind == "plain" && r.Chance(1, 4) {
+			// the same file twice in one program: first with a suffix replacement, then plain
+			var first []string
+			for _, e := range inl {
+				if strings.HasSuffix(e, "@") {
+					first = append(first, strings.TrimSuffix(e, "@")+"[\\s<>]")
+				} else {
+					first = append(first, e)
+				}
+			}
+			a = build([]string{"##!> include " + ref + " -- @ [\\s<>]", "between", "##!> include " + ref})
+			b = build(append(append(first, "between"), inl...))
+			kind += "+twice"
+		}
 		kind += []string{"@top", "@assemble", "@cmdline"}[pos]
 		c := &metaCase{kind: kind, tree: tree, a: a, b: b, fsArg: fsArgOf(tree),
 			input: map[string]interface{}{"program": a, "by_hand": b, "include_file": dir + "/lib.ra", "include_text": ftext}}
